@@ -3,12 +3,13 @@ from vlib.gen_traj import traj_block, probe_times
 from vlib.skyb import hx
 
 PID = "C01"
-LEAN_MODULE = "Sb.Properties.C01"
+LEAN_MODULE = "Sb.Properties.C01Corollaries"
 THEOREMS = [
     "Sb.C01.constants", "Sb.C01.makeBezier_eq_bernstein", "Sb.C01.init_header", "Sb.C01.position_eq_spec",
     "Sb.C01.duration_eq_sum", "Sb.C01.yaw_in_range",
     "Sb.Proofs.buildSegment_spec", "Sb.Proofs.seek_pos_spec", "Sb.Proofs.durLoop_spec", "Sb.Proofs.bezier_zero", "Sb.Proofs.bezier_one",
     "Sb.Proofs.bezier8", "Sb.Proofs.bezier4", "Sb.Proofs.fac_vals",
+    "Sb.C01.decodeSegs_chained", "Sb.C01.posAt_segment_start", "Sb.C01.posAt_segment_end", "Sb.C01.posAt_joins", "Sb.C01.posAt_zero",
 ]
 ASSUMPTIONS = ["theorems are about exact rational arithmetic (secExact); float32 rounding of the implementation is bounded by the "
                "Lean-defined tolerance tolPos of Sb/Corr/Traj.lean (DESIGN.md section 4, C01)"]
